@@ -655,6 +655,14 @@ func runParent(chk *Check, tier string, seed int64) int {
 		}
 	}
 
+	// a crash whose stack never enters the code under test is a harness bug, not a verdict
+	for _, c := range crashes {
+		if c.class == "fatal" && strings.HasSuffix(c.detail, "@?") && strings.Contains(c.detail, "unrecovered") {
+			fmt.Fprintf(os.Stderr, "harness error: worker %d died outside the code under test (while at case %s): %s\n", c.worker, c.caseID, c.detail)
+			return 2
+		}
+	}
+
 	// crashes become violation groups
 	for _, c := range crashes {
 		sc := c.coord
